@@ -1,15 +1,7 @@
-use candid_parser::{check_prog, IDLProg};
-use candid::TypeEnv;
+#[global_allocator]
+static ALLOC: vf::engine::alloc::Counting = vf::engine::alloc::Counting;
 fn main() {
-    for src in [
-        "type A = service { f : (nat) -> (nat) query; g : () -> (); \"import\" : () -> () }; type B = record { x : A }; service : (nat, B) -> A",
-        "service : { f : (nat) -> (nat) query; h : () -> () oneway; var : () -> () }",
-        "type S = service { a : () -> () }; service : S",
-        "service : (opt nat) -> { f : (nat) -> (nat) query }",
-    ] {
-        let ast: IDLProg = src.parse().unwrap(); let ast2: IDLProg = src.parse().unwrap(); let merged = candid_parser::syntax::IDLMergedProg::new(ast2);
-        let mut env = TypeEnv::new();
-        let actor = check_prog(&mut env, &ast).unwrap();
-        println!("---- {src}\n{}", candid_parser::bindings::motoko::compile(&env, &actor, &merged));
-    }
+    let b = hex::decode("4449444c016d7b0100808080808080808040").unwrap();
+    let r = candid::IDLArgs::from_bytes(&b);
+    println!("{:?}", r.map(|a| a.to_string()));
 }
